@@ -107,6 +107,20 @@ def _observe(vm, prog):
 
 
 def execute(sc):
+    import os
+
+    old_cwd = os.getcwd()
+    try:
+        return _execute(sc)
+    finally:
+        os.chdir(old_cwd)
+        if sc.get("two_module"):
+            import shutil
+
+            shutil.rmtree(os.path.join(_env["scratch"], "c15", f"s{sc.get('seed', 0)}-{os.getpid()}"), ignore_errors=True)
+
+
+def _execute(sc):
     from nsl import Compiler, LinearIR, VM
 
     prog = sc["prog"]
@@ -134,6 +148,31 @@ def execute(sc):
         r.update(kw)
         return r
 
+    store = None
+    if sc.get("two_module"):
+        # the globals are declared by a library module stored in a private directory; the main
+        # module imports it (compile time) and the linker loads it (link time) from there
+        import os
+        import pickle
+        import shutil
+
+        store = os.path.join(_env["scratch"], "c15", f"s{sc.get('seed', 0)}-{os.getpid()}")
+        shutil.rmtree(store, ignore_errors=True)
+        os.makedirs(store)
+        os.chdir(store)
+        libsrc, src = lang.two_module_src(prog)
+        with core.Quiet() as q:
+            try:
+                lres = Compiler.Compiler().Compile(libsrc)
+            except (SystemExit, Exception) as e:
+                return done("discard", "compile-lib", f"{type(e).__name__}")
+        if lres is None:
+            return done("discard", "compile-lib-reject", q.text[-300:])
+        with open("glib.nslir", "wb") as f:
+            pickle.dump(lres.IRModule, f)
+        bump("two_module_programs")
+        if prog.get("shadowing"):
+            bump("functions_with_a_local_shadowing_an_imported_global", prog["shadowing"])
     with core.Quiet() as q:
         try:
             res = Compiler.Compiler().Compile(src, {"optimize": bool(sc.get("optimize"))})
